@@ -21,11 +21,12 @@ import (
 // Scenario names one run.
 type Scenario struct {
 	Name    string `json:"name"`
-	Op      string `json:"op"`      // rpan, removenode, reopen, send, mixed
-	Cb      string `json:"cb"`      // which callback re-enters Send: none, process, close, reopen, gated
-	Pending int    `json:"pending"` // groups pending in the gated filter
-	Writer  bool   `json:"writer"`  // a writer is parked on the lock while the callback runs
-	Race    bool   `json:"race"`    // gated filter inside Process (holding its mutex) vs removal
+	Op      string `json:"op"`             // rpan, removenode, reopen, send, mixed
+	Cb      string `json:"cb"`             // which callback re-enters Send: none, process, close, reopen, gated
+	Pending int    `json:"pending"`        // groups pending in the gated filter
+	Writer  bool   `json:"writer"`         // a writer is parked on the lock while the callback runs
+	Race    bool   `json:"race"`           // gated filter inside Process (holding its mutex) vs removal
+	Fail    string `json:"fail,omitempty"` // op "failed": which call is made with a failing precondition
 }
 
 // Result of a scenario.
@@ -106,6 +107,15 @@ func (r *reent) reenter(kind string) {
 func (r *reent) Process(ctx context.Context, e *eventlogger.Event) (*eventlogger.Event, error) {
 	if e.Type == "outer" {
 		r.reenter("process")
+		if r.cb == "process-write" && r.depth.Load() == 0 {
+			// a node that registers / reconfigures something on its Broker while it processes an event
+			r.depth.Add(1)
+			r.sense()
+			r.b.RegisterNode("registered-from-process", &sink{})
+			r.b.SetSuccessThreshold("inner", 0)
+			r.b.RemoveNode(ctx, "registered-from-process")
+			r.depth.Add(-1)
+		}
 	}
 	return e, nil
 }
@@ -203,9 +213,25 @@ func Run(sc Scenario) Result {
 			}
 		case "reopen":
 			err = b.Reopen(ctx)
+		case "failed":
+			err = failingCall(b, sc.Fail)
+			if err == nil {
+				err = fmt.Errorf("harness: the call %s was expected to fail", sc.Fail)
+			} else {
+				err = nil
+			}
+			// the Broker must be as usable as before
+			b.Send(ctx, "outer", "after a failed call")
+			b.IsAnyPipelineRegistered("outer")
+			b.RegisterNode("after-failed-call", &sink{})
+			b.Reopen(ctx)
+			b.SetSuccessThreshold("outer", 0)
+			if _, e2 := b.RemovePipelineAndNodes(ctx, "inner", "inner"); e2 != nil {
+				err = fmt.Errorf("RemovePipelineAndNodes after the failed call: %v", e2)
+			}
 		case "send":
 			clk.Add(5) // pending groups are expired: the gated filter flushes them through the Broker from Process
-			if sc.Cb == "process" {
+			if sc.Cb == "process" || sc.Cb == "process-write" {
 				_, err = b.Send(ctx, "outer", "plain payload: passes the gate and reaches the re-entering node")
 			}
 			_, err = b.Send(ctx, "outer", &gpay{Payload: gated.Payload{ID: "new"}, g: gt})
@@ -286,6 +312,75 @@ func Run(sc Scenario) Result {
 	return res
 }
 
+// failingCall makes one public call whose precondition fails (type "outer" has a graph, pipeline "outer" is registered).
+func failingCall(b *eventlogger.Broker, which string) error {
+	ctx := context.Background()
+	var err error
+	switch which {
+	case "rpan-unknown-pipeline":
+		_, err = b.RemovePipelineAndNodes(ctx, "outer", "no-such-pipeline")
+	case "rpan-unknown-type":
+		_, err = b.RemovePipelineAndNodes(ctx, "no-such-type", "outer")
+	case "rpan-empty":
+		_, err = b.RemovePipelineAndNodes(ctx, "", "")
+	case "rpan-twice":
+		b.RemovePipelineAndNodes(ctx, "inner", "inner")
+		_, err = b.RemovePipelineAndNodes(ctx, "inner", "inner")
+		b.RegisterNode("fmt2", &eventlogger.JSONFormatter{})
+		b.RegisterNode("out2", &sink{})
+		b.RegisterPipeline(eventlogger.Pipeline{PipelineID: "inner", EventType: "inner", NodeIDs: []eventlogger.NodeID{"fmt2", "out2"}})
+	case "removepipeline-unknown-type":
+		err = b.RemovePipeline("no-such-type", "outer")
+	case "removepipeline-empty":
+		err = b.RemovePipeline("", "")
+	case "removenode-unknown":
+		err = b.RemoveNode(ctx, "no-such-node")
+	case "removenode-inuse":
+		err = b.RemoveNode(ctx, "out")
+	case "removenode-empty":
+		err = b.RemoveNode(ctx, "")
+	case "registernode-empty":
+		err = b.RegisterNode("", &sink{})
+	case "registernode-deny":
+		b.RegisterNode("denied", &sink{}, eventlogger.WithNodeRegistrationPolicy(eventlogger.DenyOverwrite))
+		err = b.RegisterNode("denied", &sink{})
+	case "registernode-badpolicy":
+		err = b.RegisterNode("badpol", &sink{}, eventlogger.WithNodeRegistrationPolicy("bogus"))
+	case "registerpipeline-unknown-node":
+		err = b.RegisterPipeline(eventlogger.Pipeline{PipelineID: "bad", EventType: "outer", NodeIDs: []eventlogger.NodeID{"fmt", "no-such-node"}})
+	case "registerpipeline-malformed":
+		err = b.RegisterPipeline(eventlogger.Pipeline{PipelineID: "bad", EventType: "outer", NodeIDs: []eventlogger.NodeID{"out", "fmt"}})
+	case "registerpipeline-empty":
+		err = b.RegisterPipeline(eventlogger.Pipeline{})
+	case "registerpipeline-deny":
+		b.RegisterPipeline(eventlogger.Pipeline{PipelineID: "den", EventType: "outer", NodeIDs: []eventlogger.NodeID{"fmt", "out"}}, eventlogger.WithPipelineRegistrationPolicy(eventlogger.DenyOverwrite))
+		err = b.RegisterPipeline(eventlogger.Pipeline{PipelineID: "den", EventType: "outer", NodeIDs: []eventlogger.NodeID{"fmt", "out"}})
+	case "registerpipeline-badpolicy":
+		err = b.RegisterPipeline(eventlogger.Pipeline{PipelineID: "bp", EventType: "outer", NodeIDs: []eventlogger.NodeID{"fmt", "out"}}, eventlogger.WithPipelineRegistrationPolicy("bogus"))
+	case "threshold-negative":
+		err = b.SetSuccessThreshold("outer", -1)
+	case "threshold-empty":
+		err = b.SetSuccessThreshold("", 1)
+	case "thresholdsinks-negative":
+		err = b.SetSuccessThresholdSinks("outer", -1)
+	case "thresholdsinks-empty":
+		err = b.SetSuccessThresholdSinks("", 1)
+	case "send-unknown-type":
+		_, err = b.Send(ctx, "no-such-type", "x")
+	case "send-threshold-unmet":
+		b.SetSuccessThreshold("inner", 5)
+		_, err = b.Send(ctx, "inner", "x")
+		b.SetSuccessThreshold("inner", 0)
+	}
+	return err
+}
+
+// FailingCalls lists the failing-precondition calls of the "failed" scenarios.
+var FailingCalls = []string{"rpan-unknown-pipeline", "rpan-unknown-type", "rpan-empty", "rpan-twice", "removepipeline-unknown-type", "removepipeline-empty",
+	"removenode-unknown", "removenode-inuse", "removenode-empty", "registernode-empty", "registernode-deny", "registernode-badpolicy",
+	"registerpipeline-unknown-node", "registerpipeline-malformed", "registerpipeline-empty", "registerpipeline-deny", "registerpipeline-badpolicy",
+	"threshold-negative", "threshold-empty", "thresholdsinks-negative", "thresholdsinks-empty", "send-unknown-type", "send-threshold-unmet"}
+
 // Scenarios enumerates operation x re-entering callback x pending groups x parked writer.
 func Scenarios() []Scenario {
 	var out []Scenario
@@ -305,6 +400,14 @@ func Scenarios() []Scenario {
 		add(Scenario{Op: "reopen", Cb: "reopen", Writer: w})
 		add(Scenario{Op: "send", Cb: "process", Writer: w, Pending: 1})
 		add(Scenario{Op: "rpan", Cb: "close", Writer: w, Pending: 2})
+	}
+	for _, w := range []bool{false, true} {
+		add(Scenario{Op: "send", Cb: "process-write", Writer: w, Pending: 1})
+	}
+	for _, f := range FailingCalls {
+		sc := Scenario{Op: "failed", Cb: "none", Fail: f}
+		sc.Name = "failed/" + f
+		out = append(out, sc)
 	}
 	add(Scenario{Op: "mixed", Cb: "process", Pending: 2})
 	add(Scenario{Op: "mixed", Cb: "reopen", Pending: 1})
